@@ -64,6 +64,8 @@ fn trace(a: &[String]) {
             g_long(&mut w, &mut r8, if thorough { 1500 } else { 500 });
             let mut r9 = Rng::new(seed, "result", shard);
             g_result(&mut w, &mut r9, if thorough { 6 } else { 1 });
+            let mut r10 = Rng::new(seed, "counts", shard);
+            g_counts(&mut w, &mut r10, if thorough { 4 } else { 1 });
             let mut r7 = Rng::new(seed, "immobile", shard);
             g_immobile(&mut w, &mut r7, if thorough { 200 } else { 30 });
             let mut r6 = Rng::new(seed, "illegal", shard);
